@@ -64,6 +64,8 @@ ASSUME \A x \in RtCases : \A cut \in {0, 1, Width(Enc(x[1], x[2], x[3])) - 1} :
 
 (* registered messages: value-class vectors over their leaf fields *)
 MsgVariants == {<<"all-zero", 0>>, <<"all-one", 0>>, <<"all-extreme", 0>>, <<"int-beyond-int32", 0>>} \cup {<<"single-extreme", i>> : i \in 1..14}
+               \* points of the product space {zero, one, extreme}^leaves chosen by a seeded generator (mixed i = i-th draw)
+               \cup {<<"mixed", i>> : i \in 1..8}
 
 (* envelope *)
 EnvCases == [system : BOOLEAN, sender : {"absent", "local", "remote"}, receiver : {"absent", "present"}, msg : {"OnLaunch", "custom"}]
